@@ -43,6 +43,15 @@ class Ctx:
         """Analysis bound (loop unrolling, abstract registry size, ...) of the current tier."""
         return thorough if self.tier == 'thorough' else quick
 
+    def part(self, rule, fn, *args):
+        """Runs one obligation group; a path explosion inside it makes THAT rule undecided instead of aborting the property."""
+        from . import proto
+        try:
+            return fn(self, *args)
+        except proto.PathLimit as e:
+            self.undecided(rule, getattr(fn, '__name__', 'obligation group'), 'the path-sensitive walk exceeded its path budget (%s): nothing is concluded for this group' % e)
+            return None
+
     # ---- recording
     def _text(self, node):
         if node is None:
